@@ -134,6 +134,7 @@ type task struct {
 	inCall   bool // between BeginCall/EndCall
 	fn       func()
 	lastSite int32
+	streak   int // consecutive synchronisation points without any memory access in between (spin detection)
 }
 
 type waitable interface{ canProceed(t *task) bool }
@@ -629,6 +630,37 @@ func point(t *task, site int32, cls Class, elig bool) {
 	gstep++
 	if gstep > cfg.StepCap {
 		abortRun(nil, "step cap exceeded")
+	}
+	if cls == ClsSync {
+		t.streak++
+		if t.streak > 2000 && !cfg.Replay {
+			// a task spinning on atomics/TryLock: a fair scheduler lets the others run
+			if o := others(t); len(o) > 0 {
+				t.streak = 0
+				// round-robin among the runnable others: every one of them gets the baton in turn
+				n := o[0]
+				for _, c := range o {
+					if c.id > t.id {
+						n = c
+						break
+					}
+				}
+				if cfg.Policy == "pct" {
+					pctLow--
+					t.prio = pctLow
+					if h := highest(t); h != nil {
+						n = h
+					}
+				}
+				probe("spin_yield")
+				decided = append(decided, Decision{T: t.id, L: t.local, To: n.id})
+				logEv('S', uint64(t.id), t.local, uint64(n.id))
+				switchTo(t, n)
+				return
+			}
+		}
+	} else {
+		t.streak = 0
 	}
 	if cfg.Replay {
 		if d, ok := replay[[2]uint64{uint64(t.id), t.local}]; ok && !d.Forced {
